@@ -233,7 +233,7 @@ def strategy(n):
 
 
 def run_shard(ctx):
-    n = 400 if ctx.tier == "quick" else 5000
+    n = 400 if ctx.tier == "quick" else 15000
 
     def body(case):
         cl = run_case(case, set())
